@@ -50,6 +50,16 @@ def generate(rng, seed, index, tier):
         spec["dup"] = True  # COO results with repeated positions (entries are sums of contributions)
     if fam in ("qp", "nlp") and rng.random() < 0.12:
         x0 = gen.integer_bounds(rng, spec, x0)  # bound arrays of integer dtype
+    if fam in ("qp", "nlp") and rng.random() < 0.1:
+        # big-M style bounds: finite, huge (up to 9e19), far from anything the iterates reach
+        for key, sgn in (("xl", -1.0), ("xu", 1.0), ("cl", -1.0), ("cu", 1.0)):
+            v = np.array(spec[key], float)
+            for i in range(v.size):
+                if rng.random() < 0.4 and not (key in ("cl", "cu") and spec["cl"][i] == spec["cu"][i]) and not (key in ("xl", "xu") and spec["xl"][i] == spec["xu"][i]):
+                    v[i] = sgn * float(rng.choice([1e15, 4e18, 9e19]))
+            spec[key] = v
+        x0 = np.clip(x0, spec["xl"], spec["xu"])
+        spec["huge_bounds"] = True
     y0 = np.round(rng.normal(size=spec["m"]), 3)
     x0, y0, sform = gen.start_forms(rng, spec, x0, y0, p=0.1)
     kw = {}
@@ -64,7 +74,12 @@ def generate(rng, seed, index, tier):
                 wdt = str(rng.choice(["int8", "int16", "int32"]))
                 wmax = int(rng.choice([8, 45, 100 if wdt == "int8" else 45]))
             kw["scaling"] = {"var": rng.integers(-wmax, wmax + 1, size=spec["n"]).tolist(), "cons": rng.integers(-wmax, wmax + 1, size=spec["m"]).tolist(), "obj": int(rng.integers(-wmax, wmax + 1)), "dtype": wdt}
-            if rng.random() < 0.12:
+            u_ = rng.random()
+            if u_ < 0.1:
+                # rows-only scaling: variable exponents and the objective exponent are zero
+                kw["scaling"]["var"] = [0] * spec["n"]
+                kw["scaling"]["obj"] = 0
+            elif u_ < 0.22:
                 # objective-only scaling: every variable / row exponent is zero
                 kw["scaling"]["var"] = [0] * spec["n"]
                 kw["scaling"]["cons"] = [0] * spec["m"]
